@@ -158,6 +158,23 @@ def _check(case):
             with io.open(a[0], "rb") as fd:
                 extra = fd.read()
         res.append((st, type(r).__name__ if st == "exc" else _canon(r), out, _state(recv) if mk is not None else None, extra))
+    # flags given as 1 / 0 (from a command line, a config file, numpy): whatever the library makes of a flag that is truthy but not `True`, it makes
+    # the SAME of it everywhere in the call - the result is the result for True or the result for False, never a mixture of the two
+    a0 = args()
+    for i, v in enumerate(a0):
+        if isinstance(v, bool):
+            def run(val):
+                recv = mk() if mk is not None else None
+                f = getattr(recv, name) if mk is not None else name
+                a = list(args())
+                a[i] = val
+                st, r, out = call(f, *a)
+                return (st, type(r).__name__ if st == "exc" else _canon(r), _state(recv) if mk is not None else None)
+            cands = (run(True), run(False))
+            got = run(1 if v else 0)
+            if got not in cands:
+                return 5, "!", None, [Viol("flag-given-as-int-gives-a-mixture", f"{what}: with {names[i]}={1 if v else 0} the result is {str(got[:2])[:300]}, which is neither "
+                                                                               f"the result for True {str(cands[0][:2])[:200]} nor the result for False {str(cands[1][:2])[:200]}")]
     if res[0] != res[1]:
         return 2, "!", None, [Viol("keyword-call-differs", f"{what}: called with keyword arguments {names} -> {str(res[1][:2])[:300]}; the same call written "
                                                            f"positionally -> {str(res[0][:2])[:300]}")]
@@ -170,5 +187,6 @@ def part(prop):
         return None
     return InputPart("keyword-call-forms", lambda: ((prop, i) for i in range(n)), _check,
                      rule="every operation of this property called once with all arguments positional and once with all arguments by keyword, under the "
-                          "parameter names of the pinned signatures (%d rows): same result, receiver state, printed output, exception class, written bytes" % n,
+                          "parameter names of the pinned signatures (%d rows): same result, receiver state, printed output, exception class, written bytes; "
+                          "and every boolean flag given as 1 / 0: the result for True or the result for False, never a mixture" % n,
                      bounds={"rows": n}, chunk=1)
